@@ -10,8 +10,9 @@ from props.parts import C06_v1 as V
 NS = "EngineModel.Properties.C15TracksV1."
 LEAN_MODULES = ["Properties.C15TracksV1"]
 THEOREMS = [NS + t for t in [
-    "v1t_C15_no_ub", "v1t_C15_invariant", "v1t_C15_empty", "v1t_C15_reachable_no_ub", "v1t_C15_write_any_snapshot",
-    "v1t_C15_slot_any_index", "v1t_C15_stale_handle"]]
+    "v1t_C15_no_ub", "v1t_C15_invariant", "v1t_C15_empty", "v1t_C15_reachable_no_ub", "v1t_C15_ceil_exact",
+    "v1t_C15_reachable_no_ub_exact_ceil", "v1t_C15_write_any_snapshot", "v1t_C15_slot_any_index",
+    "v1t_C15_stale_handle"]]
 ASSUMPTIONS = [
     "tracks 1.x: the model (EngineModel/TracksV1, tied by C01/C06 and again here) makes these undefined-behaviour "
     "sources explicit: vector index in the four per-slot accessors and in the waveform resampling loop (oob_index), "
@@ -19,11 +20,11 @@ ASSUMPTIONS = [
     "(signed_overflow), static_cast<int64_t> of sample rate / BPM / ceil(BPM) (float_cast_range), the division by the "
     "truncated sample rate (div_zero); the fixed-size quick-cue buffer is behind the hot_cues_overflow guard of the "
     "fix: commit and modelled as that guard",
-    "tracks 1.x: the one law assumed of double arithmetic is CeilBounded (|x| < 2^63 implies |ceil x| < 2^63), used by "
-    "set_bpm only; the driver runs the hardware ceil and the tie compares every set_bpm outcome",
-    "tracks 1.x: through a handle whose Track row is gone the model answers track_deleted for every call, the library "
-    "answers from the MetaData / PerformanceData rows that remove_track leaves behind (no cascade): those calls are "
-    "compared as defined-vs-undefined only; is_valid / id / copy are compared exactly",
+    "tracks 1.x: the one law assumed of double arithmetic is CeilInRange (for |x| < 2^63 the cast of ceil x to int64 is "
+    "defined), used by set_bpm only; it is a theorem for the bit-exact IEEE ceil `ceilBits` (v1t_C15_ceil_exact), and "
+    "the tie compares the hardware ceil of the driver with `ceilBits` on boundary and random doubles on every run",
+    "tracks 1.x: calls through a handle whose Track row is gone follow the tracks-1.x model of removed tracks "
+    "(dbGet / dbSet / dbUpdate on an absent id) and are compared like every other call",
 ]
 MANIFEST_TEXT = ("Tracks 1.x: the same for the legacy layout (`dbOk`: stored whole seconds scale back into int64; the "
                  "only assumption on double arithmetic is that ceil keeps magnitudes below 2^63).")
@@ -128,11 +129,31 @@ def defined_only(l, stale):
         not (t[0] == "get" and t[2] in ("valid", "id", "copy"))
 
 
+CEIL_EDGES = ["0000000000000000", "8000000000000000", "3fe0000000000000", "bfe0000000000000", "3fefffffffffffff",
+              "bfefffffffffffff", "3ff0000000000000", "3ff8000000000000", "405e200000000000", "c05e200000000000",
+              "432fffffffffffff", "4330000000000000", "433fffffffffffff", "c32fffffffffffff", "43dfffffffffffff",
+              "c3dfffffffffffff", "43e0000000000000", "c3e0000000000000", "0000000000000001", "8000000000000001",
+              "000fffffffffffff", "0010000000000000", "7fefffffffffffff", "7ff0000000000000", "fff0000000000000",
+              "7ff8000000000000", "3ca0000000000000", "4000000000000001", "4340000000000000", "4190000000000001"]
+
+
+def ceil_selftest(rng, n):
+    """FloatOps assumption, sampled: the hardware `ceil` the driver runs = the bit-exact `ceilBits` the theorem
+    v1t_C15_ceil_exact is about (NaN payloads aside)."""
+    pts = list(CEIL_EDGES)
+    while len(pts) < n:
+        e = rng.choice([rng.randrange(0, 2047), rng.randrange(1000, 1090), rng.randrange(1020, 1080)])
+        pts.append("%016x" % ((rng.getrandbits(1) << 63) | (e << 52) | rng.getrandbits(52)))
+    out = runner.run_model_script(["c15.ceil " + p for p in pts])
+    return [{"input": "c15.ceil " + p, "impl": "hardware ceil of the driver", "model": o[:200]}
+            for p, o in zip(pts, out) if o != "ok same"][:5]
+
+
 def tie(ctx):
     rng = random.Random(ctx.seed * 7121 + 1501)
     schemas = K.rotate(G.SCHEMAS, ctx.seed, 11 if ctx.tier == "thorough" else 3)
-    per = 16 if ctx.tier == "thorough" else 6
-    nadv = 60 if ctx.tier == "thorough" else 36
+    per = 40 if ctx.tier == "thorough" else 6
+    nadv = 80 if ctx.tier == "thorough" else 36
     scripts = []
     hid = 0
     for s in schemas:
@@ -140,8 +161,11 @@ def tie(ctx):
             hid += 1
             scripts.append(gen_script(rng, ctx.tier, s, hid, nadv, "stale" if i % 2 == 0 else "create"))
     res = K.run_pair(scripts)
-    j = K.judge(res, "tracks_v1", "v1", lambda s: PREFIX, stale_of, opkey, loose_ids=True,
-                defined_only=lambda l, stale: defined_only(l, stale) or (l.startswith("snap ") and l.split()[1] in stale))
+    j = K.judge(res, "tracks_v1", "v1", lambda s: PREFIX, stale_of, opkey, loose_ids=True)
+    cd = ceil_selftest(rng, 400 if ctx.tier == "thorough" else 120)
+    j["divergences"] += cd
+    j["ok"] = j["ok"] and not cd
+    j["hist"]["ceil_selftest"] = {"points": 400 if ctx.tier == "thorough" else 120, "differ": len(cd)}
     return {"ok": j["ok"], "evaluations": j["evaluations"],
             "distinct_nontrivial": j["distinct"],
             "rule": "tracks 1.x: scripts of %d adversarial calls (slot accessors at -1..9 and INT_MIN/INT_MAX, 0..12 slots, "
